@@ -134,6 +134,65 @@ def read_message_one_packet_per_call():
     return True
 
 
+def marker_scan_covers_whole_list():
+    """AST of Transport._parse_kex_init: the scan for `kex-strict-` / `ext-info-` names is a `for` loop over (an
+    enumeration of) the whole kex name list, and the function contains no `while` loop and no `[-1]` look at the tail of
+    that list.  None if unreadable."""
+    import paramiko.transport as T
+
+    try:
+        tree = ast.parse(textwrap.dedent(inspect.getsource(T.Transport._parse_kex_init)))
+    except (OSError, SyntaxError):
+        return None
+    has_for = False
+    for n in ast.walk(tree):
+        if isinstance(n, ast.While):
+            return False
+        if isinstance(n, ast.Subscript) and isinstance(n.value, ast.Name) and n.value.id == "kex_algo_list":
+            sl = n.slice
+            if isinstance(sl, ast.UnaryOp) and isinstance(sl.op, ast.USub):
+                return False
+        if isinstance(n, ast.For) and any(isinstance(x, ast.Name) and x.id == "kex_algo_list" for x in ast.walk(n.iter)):
+            if any(isinstance(x, ast.Constant) and x.value == "kex-strict-" for x in ast.walk(n)):
+                has_for = True
+    return has_for
+
+
+def reorder_strict_marker(peer, position):
+    """Peer-side tool: every KEXINIT this transport sends lists its `kex-strict-*` name at index `position` of the kex
+    list (clamped) instead of at the end; the transport's own copy of the KEXINIT (hashed into the exchange) is
+    updated accordingly."""
+    from paramiko import Message
+
+    orig = peer._send_message
+
+    def send_message(m):
+        b = m.asbytes()
+        if b[:1] != b"\x14":
+            return orig(m)
+        mm = Message(b[1:])
+        cookie = mm.get_bytes(16)
+        lists = [mm.get_list() for _ in range(10)]
+        follows = mm.get_boolean()
+        reserved = mm.get_int()
+        kex = lists[0]
+        markers = [x for x in kex if x.startswith("kex-strict-")]
+        rest = [x for x in kex if not x.startswith("kex-strict-")]
+        pos = max(0, min(position, len(rest)))
+        lists[0] = rest[:pos] + markers + rest[pos:]
+        new = Message()
+        new.add_byte(b"\x14")
+        new.add_bytes(cookie)
+        for lst in lists:
+            new.add_list(lst)
+        new.add_boolean(follows)
+        new.add_int(reserved)
+        peer.local_kex_init = peer._latest_kex_init = new.asbytes()
+        return orig(new)
+
+    peer._send_message = send_message
+
+
 def read_tables():
     """Key sets of every dispatch table, read from live objects of the tree under test."""
     import paramiko
@@ -191,10 +250,13 @@ def lean_tables(tables, consts, total):
         "def runRepliesUseFixedWidth : Bool := %s\n\n"
         "/-- Packetizer.read_message: no recursion, no loop — one packet per call, none skipped -/\n"
         "def readMessageDeliversEveryPacket : Bool := %s\n\n"
+        "/-- Transport._parse_kex_init scans the whole kex name list for the pseudo-algorithm names -/\n"
+        "def markerScanCoversWholeList : Bool := %s\n\n"
         "end PV.Generated.C12\n" % (cl, "true" if total else "false", tables["highestUserauth"], body,
                                       "true" if run_check_order() else "false",
                                       "true" if run_replies_fixed_width() else "false",
-                                      "true" if read_message_one_packet_per_call() else "false")
+                                      "true" if read_message_one_packet_per_call() else "false",
+                                      "true" if marker_scan_covers_whole_list() else "false")
     )
 
 
